@@ -5,7 +5,7 @@
    for a same-kind merge the only difference is that the equal-length / equal-range checks of Chunk.merge are
    then made by Network.run_pair (flag same_kind) instead of PluginIter.merge_check -- the calls are the same.
    save_when = ALWAYS: the strict variant of do_compute's checks and of the leftover check. *)
-From SV Require Import Model.PluginIter.
+From SV Require Import Model.PluginIter Model.Overlap.
 From SV Require Export Model.Network.
 
 Definition pair_of_call (c : call) : chunk * chunk :=
@@ -15,4 +15,15 @@ Definition align_iter (bs : list Z) (s1 s2 : stream) : res calls2 :=
   match plugin_iter SAVEWHEN_ALWAYS [(1, s1); (2, s2)] with
   | (calls, None) => Ok (map pair_of_call calls)
   | (_, Some e) => Err e
+  end.
+
+(* the stream of an overlap-window node IS OverlapWindowPlugin.iter (Model/Overlap.v, property C09) for a plugin
+   with one output: the chunks it yields, in order, including the final flush of cached_results *)
+Definition first_chunk (it : option (list chunk)) : list chunk :=
+  match it with Some (c :: _) => [c] | _ => [] end.
+
+Definition ovl_c09 : ovl_t := fun m f wt wl wr sw cs =>
+  match ow_iter (mk_ow_params wt wl wr [mk_ow_out f (o_dtype m) (o_kind m)] (o_run m) (o_target m) sw) cs with
+  | Ok items => Ok (flat_map first_chunk items)
+  | Err e => Err e
   end.
